@@ -28,6 +28,9 @@ fn hash_of(mode: i64, hseed: u64, k: u64) -> u64 {
         4 => hseed,
         // pointer-like
         5 => (0x6000_0000_0000u64 + 48 * k).wrapping_mul(0x517c_c1b7_2722_0a95),
+        // scattered, but blind to the key's bits from 2^24 up: keys 2^24 apart share one hash (and so one slot at
+        // every capacity) while staying different keys
+        7 => mix(hseed, k & 0xff_ffff),
         _ => k,
     }
 }
@@ -59,10 +62,10 @@ impl World for LruWorld {
             rates[rsdd::verif::Site::LruGrowNow as usize] = *c.pick(&[4u16, 32, 128]);
         }
         let ncallers = 1 + c.below(3);
-        let len = if huge { 400 } else { 1 + o.below(if thorough { 300 } else { 120 }) };
+        let len = if huge { 1200 } else { 1 + o.below(if thorough { 300 } else { 120 }) };
         let mut ops = Vec::new();
         if huge {
-            cfg.insert("hmode".into(), *c.pick(&[0i64, 5]));
+            cfg.insert("hmode".into(), *c.pick(&[0i64, 5, 7, 7]));
             ops.push(Op { c: 0, k: K_BULK_INSERT, a: [0, nkeys, 0, 0] });
         }
         for _ in 0..len {
@@ -106,7 +109,14 @@ impl World for LruWorld {
             }
             // after a bulk fill the callers work on a few dozen hot keys spread over the whole key range,
             // so that overwrite-then-read of one key actually happens
-            let k = if nkeys > 100_000 { crate::rng::mix((op.a[0] as u64) % 48, hseed) % nkeys } else { (op.a[0] as u64) % nkeys };
+            // (each hot key has three "shadow" keys 2^24, 2*2^24, 3*2^24 above it: under hash mode 7 they
+            // share its slot at every capacity, so that a re-inserted hot key is evicted again after the growths)
+            let k = if nkeys > 100_000 {
+                let a0 = op.a[0] as u64;
+                crate::rng::mix(a0 % 48, hseed) % nkeys + (((a0 / 48) % 4) << 24)
+            } else {
+                (op.a[0] as u64) % nkeys
+            };
             let h = hash_of(mode, hseed, k);
             match op.k {
                 K_INSERT => {
